@@ -104,6 +104,52 @@ fn random_list(rng: &mut Rng) -> (Vec<MCell>, i32) {
         let d = list[rng.usize(list.len())];
         list.push(d); // duplicates are expanded twice, in place
     }
+    if rng.chance(0.2) {
+        // family runs: the children of one cell next to each other - in order, permuted, with one repeated in place of another,
+        // all the same one, or with a stranger in the run - the shapes a "whole sibling group" shortcut would mistake for a group
+        for _ in 0..1 + rng.below(3) {
+            let res = (target - rng.below(4) as i32).max(0);
+            let kids = children_at(gen::random_cell(rng, res - 1), res);
+            let k = kids.len();
+            let mut fam: Vec<MCell> = match rng.below(6) {
+                0 => kids.clone(),
+                1 => {
+                    let mut f = kids.clone();
+                    let (a, b) = (1 + rng.usize(k - 1), 1 + rng.usize(k - 1));
+                    f.swap(a, b);
+                    f
+                }
+                2 => {
+                    let mut f = kids.clone();
+                    let (a, b) = (rng.usize(k), rng.usize(k));
+                    f[a] = f[b];
+                    f
+                }
+                3 => vec![kids[rng.usize(k)]; k],
+                4 => {
+                    let mut f = kids.clone();
+                    f[1 + rng.usize(k - 1)] = gen::random_cell(rng, res);
+                    f
+                }
+                _ => {
+                    let mut f = kids.clone();
+                    for i in (1..k).rev() {
+                        f.swap(i, rng.usize(i + 1));
+                    }
+                    f
+                }
+            };
+            let f: u128 = fam.iter().map(|c| fanout(c.res, target)).sum();
+            if f > budget {
+                continue;
+            }
+            budget -= f;
+            let at = rng.usize(list.len() + 1);
+            let tail = list.split_off(at);
+            list.append(&mut fam);
+            list.extend(tail);
+        }
+    }
     (list, target)
 }
 
